@@ -154,6 +154,10 @@ def goodbye(ctx: Any) -> List[Ob]:
     loops = [n for n in walk_local_ordered(ua.node) if isinstance(n, ast.For)]
     ok_u = len(loops) == 1 and isinstance(loops[0].iter, ast.Call) and norm(loops[0].iter.args[0]) == '_REGISTER_BROADCASTS' and any(isinstance(c, ast.Call) and call_name(c) == 'async_send' for c in ast.walk(loops[0]))
     obs.append(ob(R, ua, 'for i in range(_REGISTER_BROADCASTS): ... self.async_send(out)', 'the closing goodbye is sent three times', ok_u))
+    # the address / NSEC goodbyes are copies of the set the service hands out for its host (shared with C03.ADDRNSEC)
+    from .c03 import address_set_obligations
+
+    obs.extend(address_set_obligations(ctx, R))
     return obs
 
 
